@@ -1,3 +1,4 @@
 import PydjinniModel.Props.C03
 import PydjinniModel.Props.C03Parse
-/-! All C03 theorems (target sets, comments, lexer progress; parse ∘ print round trip). -/
+import PydjinniModel.Props.C03Lex
+/-! All C03 theorems (target sets, comments, lexer progress/termination/positions/reconstruction; parse ∘ print round trip). -/
